@@ -42,6 +42,71 @@ CHECKS = {
   text="Exhaustive sweep of every bit-field boundary (17k ids) plus ~70k random ids, pairs, sort inputs and parser strings per quick run against an independent (kind,ref,version) model and an independent text recogniser; sampled, not proved, outside the boundary sets.",
   note="Trusts the harness's own transcription of the id layout claims (ranges, kind order, text shape) taken from the property statement; strconv-accepted signs and out-of-range numbers are not judged.",
   technique="property-based testing (rapid) + exhaustive boundary enumeration + native fuzzing of the parsers; round-trip and reference-model oracles"),
+ "C03": dict(
+  level="exploration",
+  text="8 000 documents per quick run (<osm>, osmChange, augmented diff) rendered by an independent XML writer with randomised layout; whole-document decode compared with the model per kind and the streaming scanner with the model in document order. Sampled over the document/layout space.",
+  note="Trusts the harness's own XML writer and model (internal/osmdoc), which take element and attribute names from the OSM XML format description; Go's encoding/xml tokenizer is trusted. An absent attribute means the field's zero value.",
+  technique="property-based testing (rapid): independent writer as generator, model oracle + differential streaming-vs-whole-document"),
+ "C04": dict(
+  level="exploration",
+  text="13 000 values per quick run (each element kind, OSM, Change and Diff containers incl. top-level bounds) marshalled and unmarshalled; result compared with the generating model and the marshalled text also read by the streaming scanner. Sampled.",
+  note="Model and comparers from internal/osmdoc; XML-representable strings, finite floats, UTC times, whole-second note dates; nil and empty are the same value.",
+  technique="property-based testing (rapid): round-trip oracle against the generating model + scanner differential"),
+ "C05": dict(
+  level="exploration",
+  text="9 500 cases per quick run: OSM values round-tripped under three codec configurations with a generic shape check of the output, and independently written osmjson documents (version number/string/absent, unknown keys, Overpass/API styles) decoded and compared with the model. Sampled.",
+  note="Custom codecs are harness-written implementations over encoding/json (json-iterator cannot run here); tag keys unique; codec variables are process-global and restored per case.",
+  technique="property-based testing (rapid): shape predicate on generically parsed output, round-trip and independent-writer oracles, codec differential with call counting"),
+ "C11": dict(
+  level="exploration",
+  text="20 000 ground-truth timelines per quick run (commit and pre-commit regimes, ways and relations) annotated by the library; annotations, update lists and the state after ApplyUpdatesUpTo(t) for every timeline instant compared with the timeline itself; typed errors checked. Sampled histories; ties with the next parent version are not judged.",
+  note="The oracle is the generator's timeline (internal/histgen), not a re-implementation of the matcher. Pre-commit windows hold at most one child version so the answer does not depend on nearest-in-window tie-breaking; mixed-era histories are not generated.",
+  technique="property-based testing (rapid): ground-truth timeline generation, state-at-time oracle, time-travel metamorphic check"),
+ "C12": dict(
+  level="exploration",
+  text="2 500 histories per quick run biased to parents with >12 updates and same-second version clusters, each annotated 8 times on freshly built equal input; all runs must agree byte for byte (or all fail) and every update list must be sorted by (index, time, version). Map iteration orders are sampled by repetition.",
+  note="Go randomises map iteration per range statement; 8 repetitions per case sample it. Error identity may differ between runs.",
+  technique="property-based testing (rapid): repeated-execution determinism oracle + sortedness invariant"),
+ "C13": dict(
+  level="exploration",
+  text="20 000 generated changes x histories per quick run (unsorted, gapped, with own/later versions, duplicates, missing, empty; with/without IgnoreMissingChildren) compared with a reference pairing written in the harness.",
+  note="Duplicate history entries of the predecessor version are interchangeable; datasource is the library's map-backed HistoryDatasource.",
+  technique="property-based testing (rapid): reference-model oracle"),
+ "C14": dict(
+  level="exploration",
+  text="10 000 reference graphs per quick run (DAGs, cycles, self loops, missing histories, multi-version member sets) with complete runs, Close after k and cancel after k; validity predicate on the emitted sequence (once, only with history, requested-or-reachable, children first on acyclic graphs for every prefix) plus deadlock and goroutine-leak detection. Stop interleavings are sampled.",
+  note="Relation ids >= 1; order judged only when the whole graph is acyclic, as the statement says; 10 s deadline + goroutine dump distinguishes blocked from slow.",
+  technique="property-based testing (rapid): validity-predicate oracle over generated graphs and stop plans, watchdog for termination"),
+ "C15": dict(
+  level="exploration",
+  text="30 000 generated ways/relations x update lists (index-sorted, time-sorted, shuffled) x times per quick run against a reference apply written in the harness; composition and geometry-at-time clauses checked where the statement conditions them.",
+  note="Indices >= 0; geometry clause only for fully annotated ways with in-range indices; composition only when each child's updates are time-ordered.",
+  technique="property-based testing (rapid): reference-model oracle + metamorphic relations (composition, LineStringAt vs apply-on-copy)"),
+ "C16": dict(
+  level="exploration",
+  text="5 000 ground-truth polygon sets per quick run (jittered and integer-grid rings, holes, 1..4 outers) cut, reversed and shuffled, each converted in 6 configurations (coordinate source x orientation annotation mode); result compared with the ground truth as sets of canonical rings, winding by shoelace; orientation annotations compared with piece direction.",
+  note="Ground truth is simple, disjoint, holes strictly inside, no vertex at (0,0); exact float equality because coordinates are copied.",
+  technique="property-based testing (rapid): ground-truth reconstruction oracle + configuration differential"),
+ "C17": dict(
+  level="exploration",
+  text="4 000 generated OSM data sets per quick run, each converted under all 16 option combinations; statement rules evaluated on the model, options compared metamorphically with the default conversion, determinism and input immutability checked.",
+  note="Ways reference located or missing nodes; a way is the outer of at most one multipolygon relation (old-style identity take-over is not judged twice); multipolygon geometry itself belongs to C16.",
+  technique="property-based testing (rapid): rule oracle on the model + metamorphic option relations + immutability/determinism checks"),
+ "C18": dict(
+  level="exploration",
+  text="Exhaustive sweep (about 38 000 cases) over the harness's transcription of the published rule table: every key x value class x area class x node-list shape, all ordered key pairs, relations; plus 20 000 random tag sets with permutation invariance.",
+  note="Trusts the harness's transcription of the Overpass-turbo polygon-features list (26 keys); tag sets have unique keys.",
+  technique="exhaustive enumeration of the rule table + property-based testing (rapid) of random tag sets; direct rule-text oracle"),
+ "C19": dict(
+  level="exploration",
+  text="10 000 generated replication directories x query times per quick run served by an in-process RoundTripper (thorough: also a loopback server): result compared with the first available state at or after t, every request path validated, request count bounded.",
+  note="Current state always exists; timestamps increase; budget 8*(log2(cur)+2)+4*missing+16; queries before every state only with missing prefixes <= 2000 files.",
+  technique="property-based testing (rapid) with fault injection (404 patterns): reference search oracle + request-path and request-budget invariants"),
+ "C20": dict(
+  level="exploration",
+  text="20 000 generated calls per quick run over all 26 endpoints x options x base URLs x limiter modes x 20 statuses x response bodies, plus the exhaustive endpoint x status matrix; request and result compared with the harness's transcription of API v0.6.",
+  note="Endpoint table transcribed from the API v0.6 documentation (+ the library-documented at= extension); 3xx excluded; served by an in-process RoundTripper.",
+  technique="property-based testing (rapid) + exhaustive endpoint x status matrix; specification-table oracle with fault injection (statuses, failing limiter)"),
 }
 
 NOT_YET = "check under construction in this round (planned in DESIGN.md §3); it will be claimed once its quick tier is silent on the unchanged tree"
